@@ -1,6 +1,6 @@
 // Harness for C12: drives middleware.Retry of the real code (real clock, real back-off library).
 //
-//	REQ retry mr=<int> init=<ns> max=<ns> mul=<p>/<q> rf=<a>/<b> el=<ns> hook=<0|1> log=<0|1> outs=<o0>,… cancel=<j|-> sleep=<j>:<ns>|-
+//	REQ retry mr=<int> init=<ns> max=<ns> mul=<p>/<q> rf=<a>/<b> el=<ns> hook=<0|1> log=<0|1> outs=<o0>,… cancel=<j|-> ctxend=<call|pre|deadline|-> sleep=<j>:<ns>|-
 //	          conc=<M>:<idx>:<stagger ns>|-   (M messages concurrently through one middleware instance; this case reports message idx)
 //	          n=<calls> d=<delays reported to OnRetryHook> ts=<start of call i>,… te=<end of call i>,… tr=<return>
 //	          tq=<when the context was first asked for its deadline/Done after call 0 | ->
@@ -47,13 +47,15 @@ type tcase struct {
 	hook       bool
 	logger     bool // Retry.Logger set (watermill.NopLogger)
 	outs       []outcome
-	cancel     int   // -1 = never
-	sleepAt    int   // -1 = never
-	sleepNs    int64 //
-	concN      int   // messages sent concurrently through one middleware instance (0/1 = a single message)
-	concIdx    int   // which of them this case reports
-	stagger    int64 // start offset between them, ns
-	group      string
+	cancel     int    // -1 = never; the message context ends during call j
+	ctxEnd     string // how: "call" = cancel() from inside call j, "pre" = cancelled before Retry is invoked (j = 0),
+	// "deadline" = the context carries a deadline and call j returns only after it has passed
+	sleepAt int   // -1 = never
+	sleepNs int64 //
+	concN   int   // messages sent concurrently through one middleware instance (0/1 = a single message)
+	concIdx int   // which of them this case reports
+	stagger int64 // start offset between them, ns
+	group   string
 }
 
 type hookCall struct {
@@ -66,6 +68,7 @@ type rec struct {
 	hooks  []hookCall
 	ts, te []int64
 	tr     int64
+	ended  int   // first call at whose end the message context was found ended (-1: none)
 	tq     int64 // first time the context was asked for its deadline / Done after call 0 (-1: never)
 	msgs   string
 	err    string
@@ -81,9 +84,13 @@ func (c tcase) inputs() string {
 		}
 		outs[i] = k + strconv.Itoa(o.nout)
 	}
-	cancel, sleep := "-", "-"
+	cancel, sleep, ctxEnd := "-", "-", "-"
 	if c.cancel >= 0 {
 		cancel = strconv.Itoa(c.cancel)
+		ctxEnd = c.ctxEnd
+		if ctxEnd == "" {
+			ctxEnd = "call"
+		}
 	}
 	if c.sleepAt >= 0 {
 		sleep = fmt.Sprintf("%d:%d", c.sleepAt, c.sleepNs)
@@ -99,8 +106,8 @@ func (c tcase) inputs() string {
 	if c.concN > 1 {
 		conc = fmt.Sprintf("%d:%d:%d", c.concN, c.concIdx, c.stagger)
 	}
-	return fmt.Sprintf("retry mr=%d init=%d max=%d mul=%d/%d rf=%d/%d el=%d hook=%d log=%d outs=%s cancel=%s sleep=%s conc=%s",
-		c.mr, c.init, c.max, c.mulP, c.mulQ, c.rfA, c.rfB, c.el, hk, lg, strings.Join(outs, ","), cancel, sleep, conc)
+	return fmt.Sprintf("retry mr=%d init=%d max=%d mul=%d/%d rf=%d/%d el=%d hook=%d log=%d outs=%s cancel=%s ctxend=%s sleep=%s conc=%s",
+		c.mr, c.init, c.max, c.mulP, c.mulQ, c.rfA, c.rfB, c.el, hk, lg, strings.Join(outs, ","), cancel, ctxEnd, sleep, conc)
 }
 
 func joinI(xs []int64) string {
@@ -115,6 +122,9 @@ func joinI(xs []int64) string {
 }
 
 func (c tcase) req(r rec) string {
+	if c.cancel >= 0 && c.ctxEnd == "deadline" && r.ended >= 0 {
+		c.cancel = r.ended // when a deadline falls is a matter of time: the request names the call during which it was seen to fall
+	}
 	d := make([]int64, len(r.hooks))
 	for i, h := range r.hooks {
 		d[i] = h.delay
@@ -168,6 +178,8 @@ type flight struct {
 	base   time.Time
 	calls  int
 	cancel func()
+	ctx    context.Context
+	ended  int
 	tq     int64
 	errs   []error
 }
@@ -198,7 +210,11 @@ func runScenario(c tcase) []rec {
 			time.Sleep(time.Duration(c.sleepNs))
 		}
 		if i == c.cancel {
-			f.cancel()
+			if c.ctxEnd == "deadline" {
+				<-f.ctx.Done() // the deadline falls during this call
+			} else {
+				f.cancel()
+			}
 		}
 		o := outcome{ok: false}
 		if i < len(c.outs) {
@@ -214,6 +230,9 @@ func runScenario(c tcase) []rec {
 		}
 		mu.Lock()
 		f.r.te = append(f.r.te, int64(time.Since(f.base)))
+		if f.ended < 0 && f.ctx.Err() != nil {
+			f.ended = i
+		}
 		mu.Unlock()
 		return produced, err
 	}
@@ -241,13 +260,16 @@ func runScenario(c tcase) []rec {
 	flights := make([]*flight, n)
 	msgs := make([]*message.Message, n)
 	for k := 0; k < n; k++ {
-		f := &flight{tq: -1}
+		f := &flight{tq: -1, ended: -1}
 		f.errs = make([]error, len(c.outs)+4)
 		for i := range f.errs {
 			f.errs[i] = fmt.Errorf("e%d", i)
 		}
 		ctx, cancel := context.WithCancel(context.Background())
-		f.cancel = cancel
+		if c.cancel >= 0 && c.ctxEnd == "deadline" {
+			ctx, cancel = context.WithTimeout(context.Background(), 30*time.Millisecond)
+		}
+		f.cancel, f.ctx = cancel, ctx
 		msg := message.NewMessage(fmt.Sprintf("m%d", k), []byte("payload"))
 		msg.SetContext(obsCtx{ctx, func() {
 			mu.Lock()
@@ -267,6 +289,9 @@ func runScenario(c tcase) []rec {
 			defer wg.Done()
 			f := flights[k]
 			time.Sleep(time.Duration(int64(k) * c.stagger))
+			if c.cancel == 0 && c.ctxEnd == "pre" {
+				f.cancel() // the message arrives with its context already cancelled
+			}
 			var produced []*message.Message
 			var err error
 			func() {
@@ -282,6 +307,10 @@ func runScenario(c tcase) []rec {
 			r := &f.r
 			r.tr = int64(time.Since(f.base))
 			r.tq = f.tq
+			r.ended = f.ended
+			if r.ended < 0 && f.ctx.Err() != nil && c.cancel >= 0 {
+				r.ended = f.calls - 1 // it ended between two calls
+			}
 			r.n = f.calls
 			if len(produced) == 0 {
 				r.msgs = "-"
@@ -323,7 +352,11 @@ func runScenario(c tcase) []rec {
 const budgetSlack = 25 * int64(time.Millisecond)
 
 func (c tcase) suspicious(r rec) bool {
-	if c.cancel >= 0 && r.n > c.cancel+1 {
+	j := c.cancel
+	if j >= 0 && c.ctxEnd == "deadline" && r.ended >= 0 {
+		j = r.ended
+	}
+	if j >= 0 && r.n > j+1 {
 		return true
 	}
 	if c.el > 0 {
@@ -417,6 +450,10 @@ func parseCase(line string) (tcase, error) {
 					return c, e
 				}
 				c.outs = append(c.outs, outcome{o[0] == 's', k})
+			}
+		case "ctxend":
+			if kv[1] != "-" {
+				c.ctxEnd = kv[1]
 			}
 		case "cancel":
 			if kv[1] != "-" {
@@ -535,6 +572,31 @@ func generate(a wh.Args) []tcase {
 					if j >= 6 {
 						c.init = 30 * us
 					}
+				}
+				cs = append(cs, c)
+			}
+		}
+	}
+
+	// (2b) the context ends while the wait is exactly 0 (InitialInterval unset, or MaxInterval 0 from the second retry on):
+	// the select is between a closed ctx.Done() and time.After(0). Go may take either when both are ready, so ONE call
+	// after the context ended is accepted (rare); the message must not go on using up its retries. The context ends by
+	// cancel() inside call j, by being cancelled before Retry is invoked, or by a deadline that falls during call j.
+	for mr := 2; mr <= 8; mr++ {
+		t := calls(mr)
+		for j := 0; j+2 <= mr; j++ {
+			kinds := []string{"call", "deadline"}
+			if j == 0 {
+				kinds = append(kinds, "pre")
+			}
+			for ki, kind := range kinds {
+				if !thorough && (mr+j+ki)%2 == 1 && kind != "pre" {
+					continue
+				}
+				c := tcase{mr: mr, init: 0, max: 0, mulP: []int64{1, 2}[rng.Intn(2)], mulQ: 1, rfA: int64(rng.Intn(2)), rfB: 2, hook: rng.Intn(6) > 0,
+					outs: outsFor(t, []int{t, t, j + 2}[rng.Intn(3)], nouts(rng)), cancel: j, ctxEnd: kind, sleepAt: -1, group: "cancel.zero"}
+				if j >= 1 && rng.Intn(3) == 0 { // a first wait of 1 ms, then MaxInterval 0 makes every later wait 0
+					c.init = 1 * ms
 				}
 				cs = append(cs, c)
 			}
